@@ -30,7 +30,7 @@ func c10SuiteEd(rng *kc.Rng) (*big.Int, vssSuite, string) {
 }
 
 // fault behaviours of one faulty party (deal phase / response phase / justification phase)
-var c11DealFaults = []string{"none", "absent", "badShare", "misdirect", "wrongThreshold", "wrongSid", "dupBundle", "conflict", "badCommit", "unknownHolder", "badShareAll", "unknownHolderMid"}
+var c11DealFaults = []string{"none", "absent", "badShare", "misdirect", "wrongThreshold", "wrongSid", "dupBundle", "conflict", "badCommit", "unknownHolder", "badShareAll", "unknownHolderMid", "wrongReshare"}
 var c11RespFaults = []string{"none", "falseComplaint", "noResponse", "successStatus", "unknownDealer", "wrongSid", "dupBundle"}
 var c11JustFaults = []string{"none", "badJust", "noJust", "wrongSid", "dupBundle", "unknownHolder", "unsolicitedWrongSid", "unsolicitedBadShare"}
 
@@ -218,6 +218,17 @@ func (r *c11Round) run() {
 			k := len(m.Public) - 1
 			lg, _ := w.logOf(m.Public[k])
 			m.Public[k] = w.pointOf(addMod(lg, 1, w.q))
+		case "wrongReshare":
+			// a self-consistent deal of a polynomial with another free coefficient: harmless in a fresh run (the
+			// dealer simply contributes another secret); in a resharing the dealer does not reshare its old share
+			// and every member of the new group - holding an old share or not - has to drop it
+			if g.resharing {
+				lg, _ := w.logOf(m.Public[0])
+				m.Public[0] = w.pointOf(addMod(lg, 1, w.q))
+				for _, h := range g.new {
+					setDeal(m, h.Index, r.encryptShare(addMod(shareFor(h.Index), 1, w.q), holders[h.Index].pub))
+				}
+			}
 		case "unknownHolder":
 			m.Deals = append(m.Deals, dkg.Deal{ShareIndex: 1000 + uint32(r.rng.Intn(5)), EncryptedShare: []byte{1, 2, 3}})
 		case "unknownHolderMid":
